@@ -18,6 +18,11 @@ struct CaseRes {
 }
 impl CaseRes {
     fn norm(mut self) -> CaseRes {
+        // the implicit default rule is called <rules file>/default: compare on the bare name
+        let b = |n: &String| crate::report::bare(n);
+        self.passed = self.passed.iter().map(|(n, e)| (b(n), e.clone())).collect();
+        self.failed = self.failed.iter().map(|(n, e, v)| (b(n), e.clone(), v.clone())).collect();
+        self.unexpected = self.unexpected.iter().map(b).collect();
         self.passed.sort();
         self.failed.sort();
         self.unexpected.sort();
@@ -94,7 +99,7 @@ fn parse_structured(v: &Value) -> Result<Vec<CaseRes>, String> {
 /// junit: (rule name, "pass"/"fail") per test case element, in order
 fn parse_junit_rules(text: &str) -> Result<Vec<(String, String)>, String> {
     let cases = crate::report::parse_junit(text)?;
-    Ok(cases.into_iter().map(|c| (c.name, c.mark)).collect())
+    Ok(cases.into_iter().map(|c| (crate::report::bare(&c.name), c.mark)).collect())
 }
 
 fn expected_case(statuses: &[(String, St)], exp: &BTreeMap<String, Option<St>>) -> CaseRes {
@@ -119,7 +124,7 @@ fn expected_case(statuses: &[(String, St)], exp: &BTreeMap<String, Option<St>>) 
     c.norm()
 }
 
-fn yaml_test_file(inputs: &[&String], exp: &BTreeMap<String, Option<St>>) -> String {
+fn yaml_test_file(inputs: &[&String], exp: &BTreeMap<String, Option<St>>, default_key: &str) -> String {
     let mut s = String::new();
     for (k, d) in inputs.iter().enumerate() {
         s.push_str(&format!("- name: t{}\n  input: {}\n  expectations:\n    rules:", k, d));
@@ -129,7 +134,10 @@ fn yaml_test_file(inputs: &[&String], exp: &BTreeMap<String, Option<St>>) -> Str
         } else {
             s.push('\n');
             for (n, e) in given {
-                s.push_str(&format!("      {}: {}\n", n, e.txt()));
+                // an expectation on the implicit default rule is keyed by <rules file>/default with -r and by <stem>/default
+                // in directory mode
+                let key = if n == "default" { default_key.to_string() } else { n.clone() };
+                s.push_str(&format!("      {}: {}\n", key, e.txt()));
             }
         }
     }
@@ -151,6 +159,10 @@ pub fn run(tier: &str) -> i32 {
     let mut w = rule("s", vec![vec![lp[1].clone()]]);
     w.when = Some(vec![vec![un(vec![key("b")], UnOp::Exists, false)]]);
     progs.push(File { lets: vec![], rules: vec![w.clone(), rule("s", vec![vec![lp[0].clone()]]), rule("s", vec![vec![lp[9].clone()]]), rule("u", vec![vec![named("s")]])], default: vec![] });
+    // files with clauses outside any rule (the implicit default rule) next to named rules
+    progs.push(File { lets: vec![], rules: vec![rule("r0", vec![vec![lp[1].clone()]])], default: vec![vec![lp[0].clone()], vec![lp[9].clone(), lp[1].clone()]] });
+    progs.push(File { lets: vec![], rules: vec![], default: vec![vec![lp[0].clone()]] });
+    progs.push(File { lets: vec![], rules: vec![w.clone(), rule("u", vec![vec![named("s")]])], default: vec![vec![lp[5].clone()]] });
     let docs: Vec<V> = docs_quick();
     let mut djs: Vec<String> = docs.iter().map(|d| d.json()).collect();
     // numbers beyond i64 (floats in every loader) with type-sensitive rules
@@ -164,6 +176,9 @@ pub fn run(tier: &str) -> i32 {
     let mut cases: Vec<(usize, usize, usize)> = vec![]; // program, suite, assignment code
     for (pi, p) in progs.iter().enumerate() {
         let mut names: Vec<String> = p.rules.iter().map(|r| r.name.clone()).collect();
+        if !p.default.is_empty() {
+            names.push("default".into());
+        }
         names.sort();
         names.dedup();
         let k = names.len().min(3);
@@ -179,6 +194,9 @@ pub fn run(tier: &str) -> i32 {
         let p = &progs[pi];
         let text = print_file(p);
         let mut names: Vec<String> = p.rules.iter().map(|r| r.name.clone()).collect();
+        if !p.default.is_empty() {
+            names.push("default".into());
+        }
         names.sort();
         names.dedup();
         let mut exp: BTreeMap<String, Option<St>> = BTreeMap::new();
@@ -195,13 +213,15 @@ pub fn run(tier: &str) -> i32 {
                 _ => errors = true,
             }
         }
-        let tf = yaml_test_file(&inputs, &exp);
+        let tf_files = yaml_test_file(&inputs, &exp, "x.guard/default");
+        let tf_dir = yaml_test_file(&inputs, &exp, "x/default");
+        let tf = tf_files.clone();
         let want_exit = if want.iter().any(|c| !c.failed.is_empty()) { 7 } else { 0 };
         // a directory with this rules file between two others whose tests all match: the run exits as this file alone does
         if !errors && ci % 3 == 0 {
             reset_dir("c16dd");
             put("c16dd/m_this.guard", &text);
-            put("c16dd/tests/m_this_tests.yaml", &tf);
+            put("c16dd/tests/m_this_tests.yaml", &yaml_test_file(&inputs, &exp, "m_this/default"));
             for nm in ["a_before", "z_after"] {
                 put(&format!("c16dd/{}.guard", nm), "rule ok { zz !exists }\n");
                 put(&format!("c16dd/tests/{}_tests.yaml", nm), "- input: {a: 1}\n  expectations:\n    rules:\n      ok: PASS\n");
@@ -225,6 +245,8 @@ pub fn run(tier: &str) -> i32 {
             let tag = if dir_layout { "c16d" } else { "c16f" };
             reset_dir(tag);
             let rp = put(&format!("{}/x.guard", tag), &text);
+            // with -r the implicit default rule is named after the path as typed, in directory mode after the file stem
+            let tf = if dir_layout { tf_dir.clone() } else { yaml_test_file(&inputs, &exp, &format!("{}/default", rp)) };
             let tp = put(&format!("{}/tests/x_tests.yaml", tag), &tf);
             for fmt in fmts {
                 let mut argv = sv(&["test"]);
@@ -314,7 +336,7 @@ pub fn run(tier: &str) -> i32 {
     rep.extra.insert("programs".into(), json!(progs.len()));
     rep.extra.insert("expectation_assignments".into(), json!("all 4^k assignments (PASS / FAIL / SKIP / none) for the first k <= 3 rule names"));
     rep.extra.insert("formats".into(), json!(fmts));
-    rep.samples.push(json!({"rules": print_file(&progs[progs.len() - 1]), "tests": yaml_test_file(&[&djs[1], &djs[9]], &[("s".to_string(), Some(St::Skip)), ("u".to_string(), None)].into_iter().collect())}));
+    rep.samples.push(json!({"rules": print_file(&progs[progs.len() - 1]), "tests": yaml_test_file(&[&djs[1], &djs[9]], &[("s".to_string(), Some(St::Skip)), ("u".to_string(), None)].into_iter().collect(), "x.guard/default")}));
     rep.rule = "states = (rules file incl. files with the same rule name defined several times, suite of 1..4 inputs, expectation assignment, output format, layout); the per-case passed / failed / unexpected sets and the evaluated statuses reported by test are compared with the closed-form rule of the property applied to the per-definition statuses of the library entry point on the same input; exit 0 / 7; all renderings compared with the same expectation".into();
     rep.assumptions = vec!["for a met expectation the reporter shows the expected status; for an unmet one the full list of per-definition statuses".into()];
     let mut rep = rep;
